@@ -44,7 +44,8 @@ CHECKS = {
         "level_text": ("Exploration. Item by item, every plugin operator is compared with the library function it wraps applied directly (same value, or an Error notification carrying "
                        "that function's error, never a panic); string and byte flavours of the text helpers must agree on the same text; encode-then-decode is the identity (base64, gob, "
                        "CSV); sort emits a sorted permutation, stable where it says so; reader chunks concatenate to the input (lines: minus terminators), including data returned with "
-                       "EOF and injected read faults; no operator modifies the value it was handed or a value already delivered; every plugin row keeps grammar, source release and context."),
+                       "EOF and injected read faults; no operator modifies the value it was handed or a value already delivered; every plugin row keeps grammar, source release and context."
+                       " Time operators are also fed moments within a day of a zone-offset change in six daylight-saving locations (time/tzdata linked in)."),
         "level_note": "One listed finding pinned by the plugins' own tests (byte-wise word splitting on non-ASCII text).",
     },
     "C20": {
@@ -58,7 +59,8 @@ CHECKS = {
         "technique": "property-based testing of generated key distributions and timelines with an alignment-independent quota bound, per-key subsequence check and terminal propagation",
         "level_text": ("Exploration. For every generated timeline: per key, the items passed within any span L never exceed quota x (floor(L/window) + 2); per key the output is a "
                        "strictly increasing subsequence of that key's input (order kept, nothing duplicated or invented); with a period far longer than the run exactly the first "
-                       "`quota` items of each key pass, keys independently; completion and error of the source reach the subscriber; the native limiter leaves no goroutine behind."),
+                       "`quota` items of each key pass, keys independently; completion and error of the source reach the subscriber; the native limiter leaves no goroutine behind."
+                       " The ulule limiter is also shared by 2..8 concurrent streams: the quota of a key holds for what all of them let through together."),
         "level_note": "No 'nothing is lost' clause: the property does not state one.",
     },
     "C17": {
@@ -121,7 +123,8 @@ CHECKS = {
         "assumptions": COMMON_ASSUMPTIONS + ["the Go race detector (go1.26.8 -race) is the oracle: a report with a library frame in either access is a violation, a report with harness frames only is a harness bug (exit 2)"],
         "technique": "generated concurrent scenarios executed under the Go race detector over many repetitions; reports classified by the innermost library function of each conflicting access",
         "level_text": ("Exploration. The concurrent scenarios generated for C02, C03, C10 and C11 are executed in a -race build with observers that add no synchronisation of their own; every "
-                       "race report is attributed to the library functions of the two conflicting accesses. Any pair that is not a listed finding is a violation."),
+                       "race report is attributed to the library functions of the two conflicting accesses. Any pair that is not a listed finding is a violation."
+                       " Also: operators with goroutines of their own against one producer, and Share with every subscriber leaving while the source ends."),
         "level_note": "The detector only sees executed interleavings: no report is not race freedom. One listed finding (close vs send in ObserveOn/SubscribeOn).",
     },
     "C02": {
@@ -137,7 +140,8 @@ CHECKS = {
         "level_text": ("Exploration. Each producer goroutine drives its own sequential source; all start on a barrier; the bottom observer sleeps a few tens of microseconds in every "
                        "callback so that any missing serialisation shows as two callbacks inside at once. Checked for every multi-producer stage alone and with unsafe / pass-through / "
                        "Serialize stages below it, 12 (quick) / 150 (thorough) repetitions per configuration plus rapid-generated configurations. Subjects and the safe "
-                       "constructors under many producers are covered by the concurrent parts of C01 and C10."),
+                       "constructors under many producers are covered by the concurrent parts of C01 and C10."
+                       " Operators that notify from a goroutine of their own (Timeout, Delay, time samplers and buffers, ThrowOnContextCancel, ObserveOn/SubscribeOn, Interval-driven windows and merges) are run with ONE producer against the operator's timer / watcher, the observer dwelling in its callbacks."),
         "level_note": "Statistical: absence of overlap in the repetitions run is not absence in all schedules; the dwell makes a wrong subscriber mode show within a few repetitions.",
     },
     "C05": {
@@ -154,7 +158,8 @@ CHECKS = {
                        "WithN and All forms), window-when, group-by and merge-map: every tuple of short source scripts (completion, error or silence as ending) and EVERY "
                        "interleaving is fed one notification at a time; after each step the output so far, which sources are subscribed, which must still be connected and "
                        "which must have been released are compared with a step model written from the property text and the documentation. Free-running goroutines: the "
-                       "observed output must be the model's output for some interleaving compatible with each source's own order."),
+                       "observed output must be the model's output for some interleaving compatible with each source's own order."
+                       " Free-running producers: one goroutine per source, repeated; the observed output must be a member of the set of model outputs over all interleavings; WindowWhen with source and boundary on two goroutines (and with a producer driven by window completions) is judged by a validity predicate (windows concatenate to the source's values, every window closed)."),
         "level_note": ("Two listed findings pinned by the suite (TakeUntil/SkipUntil notifier error, SequenceEqual prefix comparison). The concurrent part only sees the schedules the "
                        "scheduler produces. FlatMap with asynchronous inners is covered through Concat + the cold-inner rows of C04."),
     },
@@ -171,7 +176,8 @@ CHECKS = {
         "level_text": ("Exploration. An instrumented source whose n-th subscription plays the n-th outcome script is put under every re-subscribing operator; for every outcome "
                        "sequence up to length 3 (quick) / 4 (thorough) and every configuration in the small range, the output trace and the exact number of subscriptions of "
                        "every source must equal the model's, at most one attempt may be live at any time, and at each new subscription every earlier attempt must have "
-                       "delivered its terminal and had its teardown run. Retry under cancellation: no further attempt and Error(context.Canceled)."),
+                       "delivered its terminal and had its teardown run. Retry under cancellation: no further attempt and Error(context.Canceled)."
+                       " Asynchronous attempts are repeated in virtual time with teardowns that take time and a first notification that comes after the operator started waiting: the next attempt may only be subscribed once the previous teardown has FINISHED."),
         "level_note": "Catch is a listed finding (fallback subscribed from inside the error callback). Retry with a Delay is exercised in the virtual-time check C16.",
     },
     "C11": {
@@ -188,7 +194,8 @@ CHECKS = {
                        "live now (never above one) and every subscriber's log must equal a model written at the level of the statement: an execution is one connector subject plus "
                        "one upstream subscription; join or start, discard on error/complete/refcount-zero as configured, replay rules of the connector kind; connectables: nothing "
                        "before Connect, Connect while connected returns the same subscription, disconnect releases upstream and (optionally) installs a fresh subject. "
-                       "Concurrently arriving first subscribers must share one upstream subscription and see gap-free, ordered values."),
+                       "Concurrently arriving first subscribers must share one upstream subscription and see gap-free, ordered values."
+                       " Connectable observables: 2..6 concurrent Connect calls with a source whose subscribe function takes time - one upstream subscription, each value once per subscriber, release after the returned connections are unsubscribed."),
         "level_note": "The concurrent part is statistical and checks invariants only (not the full model).",
     },
     "C10": {
@@ -238,7 +245,8 @@ CHECKS = {
         "level_text": ("Exploration. Teardown accounting is checked at three levels: the Subscription/Subscriber API against a sequential model (every teardown exactly once, "
                        "late Add runs immediately, all teardowns run before the joined panic is re-raised and it unwraps to every cause, Wait returns, IsClosed tells the "
                        "truth); races between the ways a subscription ends; and for every operator of the catalogue that, once the subscription is closed and Subscribe "
-                       "has returned, each upstream subscription's teardown ran exactly once and a TapOnFinalize below the pipeline ran exactly once."),
+                       "has returned, each upstream subscription's teardown ran exactly once and a TapOnFinalize below the pipeline ran exactly once."
+                       " Higher-order operators (ConcatAll, MergeAll, CombineLatestAll, ZipAll, MergeMap, FlatMap) are also fed by an ASYNCHRONOUS outer producer and cut from outside at every position: every inner source released, the producer not left blocked inside the operator, nothing delivered afterwards."),
         "level_note": ("Race part is statistical. Goroutine-leak freedom of asynchronous rows is asserted in the bubble-based checks (C14/C16/C17), not here."),
     },
     "C08": {
@@ -255,7 +263,8 @@ CHECKS = {
                        "Next/Error/Complete call on the source returns, the observer must already hold exactly the outputs the incremental model assigns to the "
                        "prefix, each delivered on the caller's goroutine and finished inside the call (logical stamps). Hand-off clause: ObserveOn/SubscribeOn/"
                        "ToChannel with capacities {0,1,2,3,8}, lengths around the capacity, slow consumers: FIFO without loss, terminal after every queued value, "
-                       "producer never more than capacity+2 ahead."),
+                       "producer never more than capacity+2 ahead."
+                       " The run-ahead bound is the tight one (values accepted from the producer and not yet handled by the consumer <= capacity + 1); hand-off cases are repeated with the subscription context cancelled before notification #j."),
         "level_note": "The hand-off part runs in real time with real goroutines; only upper bounds and order/loss relations are asserted, so timing cannot raise an alarm.",
     },
     "C07": {
@@ -290,7 +299,8 @@ CHECKS = {
                        "sources attach a per-item key; a context operator above the chain attaches a second marker. Checked on every recorded callback (Next, Error, "
                        "Complete) and every context-aware operator callback: context non-nil, subscription marker visible, upstream marker visible wherever the stage "
                        "passes upstream notifications on, the item key of a value-preserving row's output is the key of the item it derives from, contexts returned "
-                       "by WithContext callbacks are visible downstream, and every source is subscribed with the subscription context."),
+                       "by WithContext callbacks are visible downstream, and every source is subscribed with the subscription context."
+                       " Time-driven and hand-off operators (Delay, DelayEach, Timeout, SampleTime, ThrottleTime, time buffers, ObserveOn, SubscribeOn and chains of them, Zip / CombineLatest / WindowWhen with timers) run in virtual time with the same markers: subscription value on every callback, item context travelling with its item, upstream value on forwarded terminals and on Timeout's own error once an item has passed."),
         "level_note": ("Documented exceptions are encoded, not filtered ad hoc: DefaultIfEmptyWithContext (explicit context), stages that never subscribe their source "
                        "(Take(0) ...), values a stage produces itself (StartWith prefixes, fallbacks). Hand-off/time rows (Delay, ObserveOn, Zip ...) are checked in C08/C16/C05 harnesses."),
     },
@@ -307,7 +317,8 @@ CHECKS = {
         "level_text": ("Exploration. For every catalogue row (all variants, boundary parameters) and rapid-generated chains, over cold instrumented sources: the trace of "
                        "the 2nd and 3rd subscription, of subscriptions alive at the same time, of concurrent subscriptions, and of pipelines built by applying one "
                        "operator value to several sources must equal the trace of a first subscription to a freshly built pipeline; the source must not be "
-                       "subscribed at construction and exactly as often per Subscribe as the definition says (counted on the model)."),
+                       "subscribed at construction and exactly as often per Subscribe as the definition says (counted on the model)."
+                       " Multi-source operators: two overlapping subscriptions to ONE observable over hot sources, second subscription and first unsubscription at every position, each judged by its own step model, per-source count of live subscriptions compared after every step. Time-related operator values and observables (ContextWithTimeout, Timeout, Delay, samplers, time buffers, Timer, Interval*, *WithInterval, TakeUntil(Timer)...) are subscribed after ageing 1 ms..5 s in virtual time and a second time: same notifications at the same offsets and the same relative context deadlines as a fresh one."),
         "level_note": "Hot constructs (subjects, Share*, connectables) are excluded as the property says; concurrent mode is statistical (scheduler-dependent).",
     },
     "C01": {
@@ -343,7 +354,8 @@ CHECKS = {
                        "and compared with a reference model written from the documentation; every ordered pair of rows and random chains up to length 5 are "
                        "compared with the composition of the models; Pipe/PipeN/PipeOp/PipeOpN/manual nesting are compared for every arity 1..25 with "
                        "non-commuting maps; creation operators are compared with their definition including int64 extremes; delivered slices/maps are "
-                       "checked for later mutation. Sampled beyond the small scope; no claim outside explored cases."),
+                       "checked for later mutation. Sampled beyond the small scope; no claim outside explored cases."
+                       " Sum, Average, Min, Max, Clamp and Count are run over every numeric element type (int8..uint64, float32/64, values at the type's limits) against exact rational arithmetic."),
         "level_note": ("Trusts the hand-written reference models (harness/model) and the documentation reading recorded in DESIGN.md appendix A. "
                        "Time-driven, hand-off and multi-source rows are judged by C05/C08/C16/C17, float rounding helpers by validity predicates only."),
     },
